@@ -285,8 +285,18 @@ func c03CtxAgreement(p *Prog, r *Report, rule string) {
 				sel, _ := c.Fun.(*ast.SelectorExpr)
 				good := false
 				if sel != nil {
-					if dc, ok := ast.Unparen(sel.X).(*ast.CallExpr); ok && p.callIs(fi.Pkg, dc, kMgrDB, "(internal/db/badger.Provider).DB") && len(dc.Args) == 1 && objOf(finfo, dc.Args[0]) == ctxParam && ctxParam != nil {
+					isDB := func(e ast.Expr) bool {
+						dc, ok := ast.Unparen(e).(*ast.CallExpr)
+						return ok && p.callIs(fi.Pkg, dc, kMgrDB, "(internal/db/badger.Provider).DB") && len(dc.Args) == 1 && objOf(finfo, dc.Args[0]) == ctxParam && ctxParam != nil
+					}
+					if isDB(sel.X) {
 						good = true
+					}
+					// ... or a local that holds it: db := r.p.DB(ctx)
+					if o := objOf(finfo, sel.X); o != nil {
+						if d := singleDef(finfo, fi.Decl.Body, o); d != nil && isDB(d) {
+							good = true
+						}
 					}
 				}
 				r.Check(good, rule, k+"#via-DB(ctx)", p.pos(c), "query manager obtained from DB(ctx)", "the repository does not obtain the query manager from DB(ctx) with its own context: the write escapes the commit's Badger transaction")
